@@ -2018,6 +2018,10 @@ func opcodeCheckSig(op *ParsedOpcode, t *thread) error {
 
 	pubKey, err := bec.ParsePubKey(pkBytes, bec.S256())
 	if err != nil {
+		// an unusable key is a failed check like any other: NULLFAIL demands an empty signature then
+		if t.hasFlag(scriptflag.VerifyNullFail) && len(sigBytes) > 0 {
+			return errs.NewError(errs.ErrNullFail, "signature not empty on failed checksig")
+		}
 		t.dstack.PushBool(false)
 		return nil //nolint:nilerr // only need a false push in this case
 	}
@@ -2029,6 +2033,9 @@ func opcodeCheckSig(op *ParsedOpcode, t *thread) error {
 		signature, err = bec.ParseSignature(sigBytes, bec.S256())
 	}
 	if err != nil {
+		if t.hasFlag(scriptflag.VerifyNullFail) && len(sigBytes) > 0 {
+			return errs.NewError(errs.ErrNullFail, "signature not empty on failed checksig")
+		}
 		t.dstack.PushBool(false)
 		return nil //nolint:nilerr // only need a false push in this case
 	}
